@@ -158,8 +158,8 @@ def deep_task(task):
 
 
 def n1_task(bx):
-    lo, up = box(bx, 1)
-    lo_arr, up_arr = np.array(lo, dtype=np.double), np.array(up, dtype=np.double)
+    from mc.env import n1_bounds
+    lo, up, lo_arr, up_arr = n1_bounds(bx)
     ev = Evolvent(lo_arr, up_arr, 1, 10)
     msgs = []
     prev = None
@@ -171,8 +171,12 @@ def n1_task(bx):
             # as bounds - neither may change what the object answers next
             ev.GetPreimages([int(math.floor(lo[0])) + 1])
             ev.GetInverseImage(np.array([int(math.floor(lo[0])) + 1]))
-            lo_arr[...] = lo_arr + 3.0
-            up_arr[...] = up_arr - 5.0
+            if isinstance(lo_arr, np.ndarray):
+                lo_arr[...] = lo_arr + 3
+                up_arr[...] = up_arr - 5
+            else:
+                lo_arr[0] += 3
+                up_arr[0] -= 5
         arr = ev.GetImage(x)
         y = float(arr[0])
         if i in (0, 1, K // 2, K) and arr.flags.writeable:
@@ -265,7 +269,8 @@ def run(ctx):
                                    message=f"N={N} m={m} box={bxv}: x=1 does not map to the cell of the last subinterval", sig={}))
     # N = 1
     n1 = 0
-    for bx, (k, msgs) in zip(BOXES, pmap(n1_task, list(BOXES))):
+    from mc.env import N1_EXTRA
+    for bx, (k, msgs) in zip(BOXES + N1_EXTRA, pmap(n1_task, list(BOXES + N1_EXTRA))):
         n1 += k
         for msg in msgs:
             res.add_violation(dict(driver="n1", box=bx, message=msg, sig={}))
